@@ -33,6 +33,9 @@ def mk(spec, ids):
     return [frame(kind)]
 
 
+# ops ('RESET',): the connection is reset (reads fail at once, writes fail)
+
+
 ACCEPTOR = {
     'echo': [('P', [('RQ',)]), ('U', 'AC', ()), ('P', [('MSG', 1, 0, [1])]), ('G', 1), ('P', [('RLRQ',)]),
              ('U', 'RLRP', ()), ('FIN',)],
@@ -48,6 +51,8 @@ ACCEPTOR = {
     'pipelined': [('P', [('RQ',)]), ('U', 'AC', ()), ('P', [('MSG', 1, 0, [1]), ('MSG', 1, 1, [1, 1]), ('MSG', 1, 0, [1]), ('RLRQ',)]),
                   ('U', 'RLRP', ()), ('FIN',)],
     'early-abort': [('P', [('RQ',), ('AB', [0, 0])])],
+    'garbage-first': [('P', [('UNK0',)]), ('FIN',)],
+    'garbage-established': [('P', [('RQ',)]), ('U', 'AC', ()), ('P', [('MSG', 1, 0, [1])]), ('P', [('UNK0',)]), ('FIN',)],
     'early-data': [('P', [('RQ',), ('MSG', 1, 0, [1])]), ('FIN',)],
     'abort-close': [('P', [('RQ',)]), ('U', 'AC', ()), ('P', [('MSG', 1, 1, [1, 1]), ('AB', [2, 5])]), ('FIN',)],
     'release-data': [('P', [('RQ',)]), ('U', 'AC', ()), ('U', 'RLRQ', ()), ('P', [('MSG', 1, 1, [2]), ('RLRP',)])],
@@ -61,6 +66,7 @@ REQUESTOR = {
     'peer-abort': [('U', 'RQ', ()), ('P', [('AC',)]), ('G', 1), ('P', [('AB', [2, 0])])],
     'local-abort': [('U', 'RQ', ()), ('P', [('AC',)]), ('U', 'AB', (0, 0)), ('FIN',)],
     'rejected': [('U', 'RQ', ()), ('P', [('RJ', [1, 1, 3])])],
+    'garbage-reply': [('U', 'RQ', ()), ('P', [('UNK0',)]), ('FIN',)],
     'collision': [('U', 'RQ', ()), ('P', [('AC',)]), ('U', 'RLRQ', ()), ('P', [('RLRQ',)]), ('U', 'RLRP', ()), ('P', [('RLRP',)])],
     'response-close': [('U', 'RQ', ()), ('P', [('AC',)]), ('G', 1), ('P', [('MSG', 1, 0, [1]), ('MSG', 1, 0, [1]), ('AB', [0, 0])]), ('FIN',)],
     'find': [('U', 'RQ', ()), ('P', [('AC',)]), ('G', 2), ('P', [('MSG', 1, 1, [1, 1]), ('MSG', 1, 1, [2]), ('MSG', 1, 0, [1])]),
@@ -96,13 +102,14 @@ class Played(object):
     pass
 
 
-def play(script, req, cuts=(), dribble=False, waiting=False, fin_at=None, stop_silent=False, mutate=None, eager_fin=False,
+def play(script, req, cuts=(), dribble=False, waiting=False, fin_at=None, stop_silent=False, mutate=None, eager_fin=False, hard=False,
          tick_after_fin=True, max_iter=4000):
     """Play a script.
     cuts: absolute offsets in the peer's byte stream at which a segment boundary falls (besides the
           natural one after each peer write); dribble: one byte per segment.
     waiting: the first peer write (acceptor) is already in the socket when the provider starts.
     fin_at: the peer disconnects after exactly this many bytes of its stream (and sends nothing more).
+    hard: the disconnection of fin_at is a connection reset (reads and writes fail) instead of an orderly close.
     eager_fin: when a peer write is directly followed by the peer closing, the close is issued together
           with the write (it becomes visible as soon as the last byte has arrived).
     mutate: (index of peer PDU, fn(frame, bytes) -> [(frame or None, bytes)]) replaces that PDU.
@@ -173,7 +180,7 @@ def play(script, req, cuts=(), dribble=False, waiting=False, fin_at=None, stop_s
                 if s is None or s.closed or run.p.dul_socket is None:
                     continue          # nothing can be sent to a closed connection
                 if fin_at is not None and fin_at <= written:
-                    run.peer_fin()
+                    (run.peer_reset if hard else run.peer_fin)()
                     out.fin_done = True
                     settle()
                     break
@@ -181,7 +188,12 @@ def play(script, req, cuts=(), dribble=False, waiting=False, fin_at=None, stop_s
                 if fin_at is not None and written + blob_len >= fin_at:
                     # the peer dies after fin_at bytes of its stream: the rest is never written
                     written += run.peer_send(frames, limit=fin_at - written)
-                    run.peer_fin()
+                    if hard:
+                        deliver()            # what was written arrives, then the connection is reset
+                        if out.outcome == 'ok':
+                            run.peer_reset()
+                    else:
+                        run.peer_fin()
                     out.fin_done = True
                     deliver()
                     settle()
@@ -215,6 +227,13 @@ def play(script, req, cuts=(), dribble=False, waiting=False, fin_at=None, stop_s
                     out.fin_done = True
                 if not settle():
                     break
+            elif op[0] == 'RESET':
+                s = run._cur_sock()
+                if s is not None and not s.closed and not run.fin_pending:
+                    run.peer_reset()
+                    out.fin_done = True
+                if not settle():
+                    break
             elif op[0] == 'TICK':
                 run.tick(True)
                 if not settle():
@@ -222,7 +241,7 @@ def play(script, req, cuts=(), dribble=False, waiting=False, fin_at=None, stop_s
         if out.outcome == 'ok' and fin_at is not None and not out.fin_done:
             s = run._cur_sock()
             if s is not None and not s.closed:
-                run.peer_fin()
+                (run.peer_reset if hard else run.peer_fin)()
                 settle()
     finally:
         run.close()
